@@ -70,7 +70,7 @@ _SPEC_ASSUMPTIONS = [
 CONFIG = {
     "name": "C02",
     "properties_file": "Properties/C02.v",
-    "proof_files": ["Base/Prelude.v", "Proofs/CopySpec.v", "Proofs/CopyFault.v", "Proofs/CopyFnFacts.v", "Proofs/CopyFaultOpt.v", "Proofs/CopyFaultLive.v"],
+    "proof_files": ["Base/Prelude.v", "Proofs/CopySpec.v", "Proofs/CopyFault.v", "Proofs/CopyFnFacts.v", "Proofs/CopyFaultOpt.v", "Proofs/CopyFaultLive.v", "Proofs/CopyFaultTerm.v"],
     "model_files": ["Generated/GC02.v", "Model/CopySpec.v", "Model/CopyTop.v", "Model/CopyOpt.v", "Model/CopyFault.v", "Model/CopyFaultOpt.v"],
     "extract": "XC02.v",
     "ml_main": "c02_main.ml",
